@@ -426,6 +426,25 @@ def run_case(case, ctx):
     elif op == "add":
         for m in sorted(set([0, 1, 2, n])):
             if (m == 0) != (n == 0):
+                # one side empty: the feature table of the sum is not settled (counted out of domain), but the sum
+                # must hold the other side's observations in order, and belongs to the caller: trimming it or
+                # appending to it must not change the non-empty source
+                from tracklib.core.track import Track as _T
+                src = T() if m == 0 else build([BASES[2] + 777 * k for k in range(m)], start_id=n)
+                snap_src = snapshot(src)
+                res = M.call((lambda: src + _T()) if (n + m) % 2 else (lambda: _T() + src))
+                ctx.monitor("source.unchanged")
+                if M.is_raised(res) or [id(o) for o in res.getObsList()] != snap_src[0]:
+                    if M.is_raised(res) or [obs_tuple(o)[:4] for o in res.getObsList()] != [x[:4] for x in snap_src[1]]:
+                        J.fail("a sum with an empty track does not hold the other operand's observations in order",
+                               args={"len_a": n, "len_b": m}, raised=res if M.is_raised(res) else None)
+                        break
+                M.call(res.removeFirstObs)
+                M.call(res.addObs, Obs(ENUCoords(-1.0, -1.0, -1.0), gen.obstime_from_ms(BASES[0])))
+                if snapshot(src) != snap_src:
+                    J.fail("source track was modified when the caller trimmed / extended the sum of it and an empty track",
+                           args={"len_a": n, "len_b": m})
+                    break
                 ctx.out_of_domain("add: feature tables differ (one side empty)")
                 continue
             t2 = [BASES[2] + 777 * k for k in range(m)]
